@@ -190,8 +190,6 @@ theorem removed_list {n n' : Node} {B : Nat → Nat} (hnd : (ids n).Nodup) (hB :
 
 /-! ### what the element-level mutators do to the children they find -/
 
-def IsSeq (k : SKind) : Prop := k = .list ∨ k = .array ∨ k = .multi
-
 theorem isSeq_not_map {k : SKind} (h : IsSeq k) : isMap k = false := by
   rcases h with h | h | h <;> rw [h] <;> rfl
 
